@@ -43,7 +43,7 @@ def models():
 def p0_menu(n):
     out = [p for p in cov_menu(n, "quick")]
     out.append(("1024I", [[1024.0 if i == j else 0.0 for j in range(n)] for i in range(n)]))
-    sp = [2.0 ** -10, 1.0, 2.0 ** 10, 4.0]
+    sp = [2.0 ** -10, 1.0, 2.0 ** 10, 4.0, 0.5, 16.0]
     out.append(("spread", [[sp[i] if i == j else 0.0 for j in range(n)] for i in range(n)]))
     return out
 
